@@ -1348,8 +1348,11 @@ class C09(ExpectSpec):
                   'C09_verbatim_is_escape (under such an expansion replaceInline is exactly escaping, whatever the content), '
                   'C09_code_quotes_no_spans, C09_escape_only, C09_code_quote_verbatim (the inline code quote: for every pre / post over the plain '
                   'alphabet and body over the plain alphabet plus the star, spans.render of pre`body`post is escape pre <code> escape body '
-                  '</code> escape post -- the delimiters are located with the exact regex semantics and a star inside the quote is not markup). '
-                  'That fences and indented blocks are found where intended, and content with other markup characters, are decided by the '
+                  '</code> escape post -- the delimiters are located with the exact regex semantics and a star inside the quote is not markup), '
+                  'C09_fenced_code_verbatim with C09_closing_fence_exact (a fenced code block is verbatim whatever it holds: for every list of '
+                  'content lines, any characters except a line terminator inside a line and none of the lines the closing fence, the block loop '
+                  'renders the fence, the content and the fence to <pre><code>escape(content)</code></pre>; the closing pattern built from a '
+                  'fence matches exactly the line that is the fence). Indented blocks and fences with class names are decided by the '
                   'escaped-content oracle and correspondence.')
     rule = ('fenced blocks with adversarial content lines (every markup form) not equal to the fence, inline code with content from the '
             "property's domain, indented paragraphs; all 16 safe modes; expected = escaped content; non-trivial = content contains markup")
